@@ -510,6 +510,119 @@ Proof.
     unfold eval_leaf. rewrite E. rewrite !Rplus_0_l in B. exact B.
 Qed.
 
+(* ---------------------------------------------------------------- rounded sums: error bound over merge trees (counts 1) *)
+
+(* no running sum of any fraction and no sum formed by a Merge overflows *)
+Fixpoint tree_finite (t : stree) : Prop :=
+  match t with
+  | SLeaf es => chain_finite fnew es
+  | SNode l r => tree_finite l /\ tree_finite r /\ sf_finite (f_sum (eval_stree (SNode l r))) = true
+  end.
+
+(* the largest number of rounded additions any value goes through: a fraction's chain of k values counts k,
+   every Merge above it one more *)
+Fixpoint rounds (t : stree) : nat :=
+  match t with
+  | SLeaf es => length es
+  | SNode l r => S (Nat.max (rounds l) (rounds r))
+  end.
+
+Lemma leaf_total : forall es s, f_total (fold_left (fun s e => finsert_n (fst e) (snd e) s) es s) = (f_total s + cnt_sum es)%Z.
+Proof. induction es as [|e es IH]; intros s; simpl; [ring|]. rewrite IH. simpl. ring. Qed.
+
+Lemma tree_total : forall t, f_total (eval_stree t) = cnt_sum (sentries t).
+Proof.
+  induction t as [es|l IHl r IHr]; simpl.
+  - unfold eval_leaf. rewrite leaf_total. reflexivity.
+  - rewrite cnt_sum_app. unfold fmerge. destruct (Z.eqb_spec (f_total (eval_stree r)) 0) as [E|NE].
+    + rewrite <- IHr, E, IHl. ring.
+    + simpl. rewrite IHl, IHr. reflexivity.
+Qed.
+
+Lemma cnt_sum_one : forall es, Forall entry_one es -> cnt_sum es = Z.of_nat (length es).
+Proof. induction 1 as [|e es (_ & _ & One) _ IH]; simpl length; simpl cnt_sum; [reflexivity|]. rewrite IH, One. lia. Qed.
+
+Lemma rabs_sum_app : forall a b, rabs_sum (a ++ b) = rabs_sum a + rabs_sum b.
+Proof. induction a as [|e a IH]; intros b; simpl; [ring|rewrite IH; ring]. Qed.
+
+Lemma rabs_sum_pos : forall es, 0 <= rabs_sum es.
+Proof. induction es as [|e es IH]; simpl; [lra|]. assert (H := Rabs_pos (term e)). lra. Qed.
+
+Lemma rsum_le_rabs : forall es, Rabs (rsum es) <= rabs_sum es.
+Proof.
+  induction es as [|e es IH]; simpl; [rewrite Rabs_R0; lra|].
+  eapply Rle_trans; [apply Rabs_triang|]. lra.
+Qed.
+
+Lemma node_bound : forall dl dr eps Sl Sr c Al Ar u,
+  Rabs dl <= c * Al -> Rabs dr <= c * Ar -> Rabs eps <= u -> Rabs Sl <= Al -> Rabs Sr <= Ar -> 0 <= c -> 0 <= u ->
+  Rabs ((dl + dr) * (1 + eps) + (Sl + Sr) * eps) <= (c * (1 + u) + u) * (Al + Ar).
+Proof.
+  intros dl dr eps Sl Sr c Al Ar u Hl Hr He HSl HSr Hc Hu.
+  assert (E := Rabs_pos eps).
+  assert (D : Rabs (dl + dr) <= c * (Al + Ar)).
+  { eapply Rle_trans; [apply Rabs_triang|]. lra. }
+  assert (S : Rabs (Sl + Sr) <= Al + Ar).
+  { eapply Rle_trans; [apply Rabs_triang|]. lra. }
+  assert (D0 := Rabs_pos (dl + dr)). assert (S0 := Rabs_pos (Sl + Sr)).
+  apply Rle_trans with (Rabs (dl + dr) * (1 + Rabs eps) + Rabs (Sl + Sr) * Rabs eps).
+  - eapply Rle_trans; [apply Rabs_triang|]. rewrite !Rabs_mult. apply Rplus_le_compat_r.
+    apply Rmult_le_compat_l; [exact D0|]. eapply Rle_trans; [apply Rabs_triang|]. rewrite Rabs_R1. lra.
+  - assert (Rabs (dl + dr) * (1 + Rabs eps) <= c * (Al + Ar) * (1 + u)) by (apply Rmult_le_compat; lra).
+    assert (Rabs (Sl + Sr) * Rabs eps <= (Al + Ar) * u) by (apply Rmult_le_compat; lra).
+    lra.
+Qed.
+
+Lemma pow1u_mono : forall a b, (a <= b)%nat -> (1 + u64) ^ a - 1 <= (1 + u64) ^ b - 1.
+Proof. intros a b H. assert (P := u64_pos). assert ((1 + u64) ^ a <= (1 + u64) ^ b) by (apply Rle_pow; [lra|exact H]). lra. Qed.
+
+Lemma pow1u_pos : forall a, 0 <= (1 + u64) ^ a - 1.
+Proof. intros a. assert (P := u64_pos). assert (1 <= (1 + u64) ^ a) by (apply pow_R1_Rle; lra). lra. Qed.
+
+Lemma tree_bound : forall t, Forall entry_one (sentries t) -> tree_finite t ->
+  exists fs, isB (f_sum (eval_stree t)) fs /\
+    Rabs (fs - rsum (sentries t)) <= ((1 + u64) ^ rounds t - 1) * rabs_sum (sentries t).
+Proof.
+  induction t as [es|l IHl r IHr]; intros F T; simpl in *.
+  - destruct (chain_bound es fnew 0 0 0 0%nat F T isB_zero) as (fs' & I & B).
+    + rewrite Rminus_0_r, Rabs_R0. simpl. lra.
+    + rewrite Rabs_R0. lra.
+    + exists fs'. split; [exact I|]. rewrite !Rplus_0_l in B. exact B.
+  - apply Forall_app in F. destruct F as [Fl Fr]. destruct T as (Tl & Tr & Fin).
+    destruct (IHl Fl Tl) as (fl & Il & Bl). destruct (IHr Fr Tr) as (fr & Ir & Br).
+    rewrite rsum_app, rabs_sum_app. unfold fmerge in *.
+    assert (Al := rabs_sum_pos (sentries l)). assert (Ar := rabs_sum_pos (sentries r)).
+    set (c := (1 + u64) ^ Nat.max (rounds l) (rounds r) - 1).
+    assert (Hc : 0 <= c) by apply pow1u_pos.
+    assert (Bl' : Rabs (fl - rsum (sentries l)) <= c * rabs_sum (sentries l)).
+    { eapply Rle_trans; [exact Bl|]. apply Rmult_le_compat_r; [exact Al|]. apply pow1u_mono. apply Nat.le_max_l. }
+    assert (Br' : Rabs (fr - rsum (sentries r)) <= c * rabs_sum (sentries r)).
+    { eapply Rle_trans; [exact Br|]. apply Rmult_le_compat_r; [exact Ar|]. apply pow1u_mono. apply Nat.le_max_r. }
+    assert (P := u64_pos).
+    assert (CS : (1 + u64) * (1 + u64) ^ Nat.max (rounds l) (rounds r) - 1 = c * (1 + u64) + u64) by (unfold c; ring).
+    destruct (Z.eqb_spec (f_total (eval_stree r)) 0) as [E|NE].
+    + rewrite tree_total, (cnt_sum_one _ Fr) in E.
+      assert (L : sentries r = []) by (destruct (sentries r); [reflexivity|simpl in E; lia]).
+      rewrite L. simpl rsum. simpl rabs_sum. rewrite !Rplus_0_r. exists fl. split; [exact Il|].
+      eapply Rle_trans; [exact Bl'|]. apply Rmult_le_compat_r; [exact Al|]. rewrite CS. nra.
+    + simpl f_sum in *. pose proof (fadd_round _ _ _ _ Il Ir Fin) as I'.
+      destruct (rnd_plus_eps fl fr (proj1 (isB_repr _ _ Il)) (proj1 (isB_repr _ _ Ir))) as (eps & Be & Ee).
+      rewrite Ee in I'. exists ((fl + fr) * (1 + eps)). split; [exact I'|].
+      replace ((fl + fr) * (1 + eps) - (rsum (sentries l) + rsum (sentries r)))
+        with (((fl - rsum (sentries l)) + (fr - rsum (sentries r))) * (1 + eps) + (rsum (sentries l) + rsum (sentries r)) * eps) by ring.
+      rewrite CS. apply node_bound; try assumption; apply rsum_le_rabs.
+Qed.
+
+(* every merge tree whose entries all have count 1 (fractions without group): if no running sum and no merged sum
+   overflows, |Sum - exact sum| <= ((1+u)^k - 1) * sum|x_i|, u = 2^-53, k = rounds t <= (values) + (merges) *)
+Lemma float_sum_error_bound_tree : forall t, Forall entry_one (sentries t) -> tree_finite t ->
+  sf_finite (f_sum (eval_stree t)) = true /\
+  Rabs (SF2R radix2 (f_sum (eval_stree t)) - rsum (sentries t)) <= ((1 + u64) ^ rounds t - 1) * rabs_sum (sentries t).
+Proof.
+  intros t F T. destruct (tree_bound t F T) as (fs & I & B).
+  apply isB_valid in I. destruct I as (_ & Fi & E). split; [exact Fi|]. rewrite E. exact B.
+Qed.
+
 (* ---------------------------------------------------------------- a concrete witness of the hypotheses *)
 Lemma exact_nonvacuous :
   let t := SNode (SLeaf [(sf_of_bits 0x4008000000000000, 2%Z); (sf_of_bits 0x4014000000000000, 1%Z)])
